@@ -6,12 +6,13 @@
    identity, expected route, ...), any error injections with a non-zero status byte, any fault
    schedule [flt] (k-th connect / send / receive / close raises an OS error or any other exception,
    reply lost, reply left queued = arriving late, peer vanishes), any driver kind, route, urandom
-   stream and any history of calls.  All quantifiers are universal; proofs are by induction over
+   stream and any history of calls.  (Since f3bd898 a failed send or receive abandons the transport, so a
+   late reply is never read by a later request: no fault kind is excluded any more.)  All quantifiers are universal; proofs are by induction over
    the history with invariants relating driver state and target state (Proofs/Lifecycle*.v). *)
 From PV Require Import Base.Bytes Base.Res.
 From PV Require Import Spec.EncapParser Spec.MRParser Spec.TargetIface Spec.TargetCore.
 From PV Require Import Proofs.LifecycleTarget Model.Lifecycle Proofs.LifecycleP Proofs.LifecycleReopen
-  Proofs.LifecycleInv Proofs.LifecycleHistory Proofs.LifecycleWitness.
+  Proofs.LifecycleInv Proofs.LifecycleHistory.
 Open Scope Z_scope.
 
 (* inputs: injected service errors carry a status whose byte is not 0; route segments are byte
@@ -19,9 +20,6 @@ Open Scope Z_scope.
    not themselves ask the connection manager to open or close a connection *)
 Definition inputs_ok (inj : list injection) (route rands : list bytes) (ops : list op) : Prop :=
   inj_ok inj /\ all_bytes route /\ all_draws rands /\ Forall op_ok ops.
-
-Section Statements.
-Variable P : faults -> Prop.      (* the fault schedules a statement ranges over *)
 
 (* nothing is sent on a connection before a session is registered and a Forward Open succeeded.
    (a) every SendUnitData frame that reaches the target finds, in the target's tables AT THAT MOMENT,
@@ -33,7 +31,7 @@ Variable P : faults -> Prop.      (* the fault schedules a statement ranges over
    Proofs/LifecycleHistory.v; frames are classified by the target's own strict parsers) *)
 Definition no_connected_before_fo : Prop :=
   forall S (h : handler S) app cfg inj flt logix route rands ops,
-    P flt -> inputs_ok inj route rands ops ->
+    inputs_ok inj route rands ops ->
     let tr := w_trace (fst (fst (run h app cfg inj flt logix route rands ops))) in
     Forall (deliver_ok (S := S)) tr
     /\ forall newer b fr rep older, tr = newer ++ TDeliver b fr rep :: older -> unitdata_preceded h older fr.
@@ -45,7 +43,7 @@ Definition no_connected_before_fo : Prop :=
    Large one and 500 / 500 in a standard one *)
 Definition fo_order : Prop :=
   forall S (h : handler S) app cfg inj flt logix route rands ops,
-    P flt -> inputs_ok inj route rands ops ->
+    inputs_ok inj route rands ops ->
     let tr := w_trace (fst (fst (run h app cfg inj flt logix route rands ops))) in
     fo_trace_ok h tr /\ Forall (size_ok (S := S)) tr.
 
@@ -53,13 +51,13 @@ Definition fo_order : Prop :=
    (the with-body's own exception is [OUser]) *)
 Definition library_exceptions_only : Prop :=
   forall S (h : handler S) app cfg inj flt logix route rands ops,
-    P flt -> inj_ok inj ->
+    inj_ok inj ->
     Forall (fun o => lib_outcome (o_out o)) (snd (run h app cfg inj flt logix route rands ops)).
 
 (* after close(): not connected, driver state reset, and the target holds no session and no connection *)
 Definition close_resets : Prop :=
   forall S (h : handler S) app cfg inj flt logix route rands pre,
-    P flt -> inj_ok inj ->
+    inj_ok inj ->
     closed_state (fst (run h app cfg inj flt logix route rands (pre ++ [Simple Close]))).
 
 (* a later open() works again: from ANY state, close() then open() with no fault during that open and
@@ -67,31 +65,27 @@ Definition close_resets : Prop :=
    the target's table *)
 Definition reopen_works : Prop :=
   forall S (h : handler S) flt (s : st (S := S)),
-    P flt ->
     let s1 := fst (drv_close h flt s) in
     quiet_open flt (fst s1) -> cf_accept_session (t_cfg (w_t (fst s1))) = true ->
     forall s' r, cip_open h flt s1 = (s', r) ->
       r = Ok true /\ d_opened (snd s') = true /\ d_session (snd s') <> 0
       /\ mem_z (d_session (snd s')) (t_sessions (w_t (fst s'))) = true.
 
-Definition C10_statement : Prop :=
-  no_connected_before_fo /\ fo_order /\ library_exceptions_only /\ close_resets /\ reopen_works.
-End Statements.
-
 (* the property at full strength: every fault schedule *)
-Definition C10_full : Prop := C10_statement (fun _ => True).
+Definition C10_full : Prop :=
+  no_connected_before_fo /\ fo_order /\ library_exceptions_only /\ close_resets /\ reopen_works.
 
-(* ================================================================ what holds for every fault schedule *)
-Theorem C10_library_exceptions_only : library_exceptions_only (fun _ => True).
+(* ================================================================ the five clauses, every fault schedule *)
+Theorem C10_library_exceptions_only : library_exceptions_only.
 Proof.
-  intros S h app cfg inj flt logix route rands ops _ Hinj. unfold run.
+  intros S h app cfg inj flt logix route rands ops Hinj. unfold run.
   pose proof (run_ops_good h cfg logix flt ops _ (start_good h app cfg inj rands route Hinj)) as (_ & F).
   cbv zeta in F. eapply Forall_impl; [| exact F]. intros o [_ L]. exact L.
 Qed.
 
-Theorem C10_close_resets : close_resets (fun _ => True).
+Theorem C10_close_resets : close_resets.
 Proof.
-  intros S h app cfg inj flt logix route rands pre _ Hinj. unfold run. rewrite run_ops_app.
+  intros S h app cfg inj flt logix route rands pre Hinj. unfold run. rewrite run_ops_app.
   pose proof (run_ops_good h cfg logix flt pre _ (start_good h app cfg inj rands route Hinj)) as (G & _).
   cbv zeta in G. destruct (run_ops h logix flt _ pre) as [s1 l1]. cbn [fst snd] in *.
   cbn [run_ops exec_op].
@@ -99,82 +93,39 @@ Proof.
   destruct (exec_sop h logix flt s1 Close) as [s2 o2]. cbn [fst snd] in *. exact (C eq_refl).
 Qed.
 
-Theorem C10_reopen_works : reopen_works (fun _ => True).
-Proof. intros S h flt s _. apply reopen_works_state. Qed.
+Theorem C10_reopen_works : reopen_works.
+Proof. intros S h flt s. apply reopen_works_state. Qed.
 
-(* ================================================================ the full statement fails: a reply that arrives late *)
-(* one receive fault (the reply to the first Forward Open stays queued): the next unconnected
-   message is answered by that stale reply, the next Forward Open is "answered" by the echo of the
-   unconnected message, and the driver sends a SendUnitData frame on connection id "abcd" *)
-Definition w_echo : bytes := [75; 3; 33; 0; 0; 3; 36; 1; 97; 98; 99; 100; 101; 102; 103; 104].
-Definition w_faults : faults := mkFaults [] [] [] [(1%nat, FkOs)] [] [] [].
-Definition w_ops : list op :=
-  [Simple Open; Simple (GenericConnected w_echo); Simple (GenericUnconnected w_echo); Simple (GenericConnected w_echo)].
-Definition w_rands : list bytes := [[1; 2; 3; 4]; [5; 6; 7; 8]].
-
-Lemma w_inputs_ok : inputs_ok [] [] w_rands w_ops.
+Theorem C10_no_connected_before_fo : no_connected_before_fo.
 Proof.
-  split; [constructor |]. split; [constructor |]. split; repeat constructor.
-Qed.
-
-Theorem no_connected_before_fo_refuted : ~ no_connected_before_fo (fun _ => True).
-Proof.
-  intros H. specialize (H basic_state basic_handler init_basic default_cfg [] w_faults false [] w_rands w_ops I w_inputs_ok).
-  destruct H as [H _]. apply trace_ok_b in H. vm_compute in H. discriminate.
-Qed.
-
-(* the same late reply, read as a refusal: the Large Forward Open was GRANTED by the target, the
-   driver reads a stale invalid reply and sends the standard one *)
-Definition w_noobj : bytes := [14; 3; 32; 119; 36; 1; 48; 1].        (* Get_Attribute_Single on an object nobody implements: status 0x05 *)
-Definition w2_ops : list op := [Simple Open; Simple (GenericUnconnected w_noobj); Simple (GenericConnected w_echo)].
-Lemma w2_inputs_ok : inputs_ok [] [] w_rands w2_ops.
-Proof. split; [constructor |]. split; [constructor |]. split; repeat constructor. Qed.
-
-Theorem fo_order_refuted : ~ fo_order (fun _ => True).
-Proof.
-  intros H. specialize (H basic_state basic_handler init_basic default_cfg [] w_faults false [] w_rands w2_ops I w2_inputs_ok).
-  destruct H as [H _]. apply fo_trace_ok_b in H. vm_compute in H. discriminate.
-Qed.
-
-Theorem C10_full_refuted : ~ C10_full.
-Proof. intros (H & _). exact (no_connected_before_fo_refuted H). Qed.
-
-(* ================================================================ the guard: exactly the schedules with a late reply *)
-Definition C10_guard (flt : faults) : bool := negb (late_reply_free flt).
-
-Theorem C10_no_connected_before_fo : no_connected_before_fo (fun flt => C10_guard flt = false).
-Proof.
-  intros S h app cfg inj flt logix route rands ops Hg (Hinj & Hr & Hn & Hops). unfold run.
-  assert (late_reply_free flt = true) as Hlate by (unfold C10_guard in Hg; destruct (late_reply_free flt); [reflexivity | discriminate]).
-  pose proof (run_ops_inv h cfg flt Hlate logix ops _ (start_good h app cfg inj rands route Hinj)
+  intros S h app cfg inj flt logix route rands ops (Hinj & Hr & Hn & Hops). unfold run.
+  pose proof (run_ops_inv h cfg flt logix ops _ (start_good h app cfg inj rands route Hinj)
                 (start_inv h app cfg inj rands route Hr Hn) Hops) as [I0 _].
   pose proof (run_ops_good h cfg logix flt ops _ (start_good h app cfg inj rands route Hinj)) as ([W _] & _).
   cbv zeta in *. split; [exact (i_trace _ _ I0) |].
   intros newer b fr rep older E. eapply preceded_of_tables; [exact (wg_chain _ _ _ W) | exact (i_trace _ _ I0) | exact E].
 Qed.
 
-Theorem C10_fo_order : fo_order (fun flt => C10_guard flt = false).
+Theorem C10_fo_order : fo_order.
 Proof.
-  intros S h app cfg inj flt logix route rands ops Hg (Hinj & Hr & Hn & Hops). unfold run.
-  assert (late_reply_free flt = true) as Hlate by (unfold C10_guard in Hg; destruct (late_reply_free flt); [reflexivity | discriminate]).
-  pose proof (run_ops_inv h cfg flt Hlate logix ops _ (start_good h app cfg inj rands route Hinj)
+  intros S h app cfg inj flt logix route rands ops (Hinj & Hr & Hn & Hops). unfold run.
+  pose proof (run_ops_inv h cfg flt logix ops _ (start_good h app cfg inj rands route Hinj)
                 (start_inv h app cfg inj rands route Hr Hn) Hops) as [I0 _].
   split; [exact (i_fo _ _ I0) | exact (i_sizes _ _ I0)].
 Qed.
 
-Theorem C10_guarded : C10_statement (fun flt => C10_guard flt = false).
+Theorem C10_holds : C10_full.
 Proof.
   split; [exact C10_no_connected_before_fo |]. split; [exact C10_fo_order |].
-  split; [| split].
-  - intros S h app cfg inj flt logix route rands ops _. now apply C10_library_exceptions_only.
-  - intros S h app cfg inj flt logix route rands pre _. now apply C10_close_resets.
-  - intros S h flt s _. now apply C10_reopen_works.
+  split; [exact C10_library_exceptions_only |]. split; [exact C10_close_resets | exact C10_reopen_works].
 Qed.
 
 (* ================================================================ non-vacuity *)
 (* a fault-free history on which connected frames DO reach the target (so the theorems speak about
    something), a Large-refusing policy under which a standard Forward Open IS sent, and a
    close();open() that satisfies the hypotheses of [reopen_works] *)
+Definition w_echo : bytes := [75; 3; 33; 0; 0; 3; 36; 1; 97; 98; 99; 100; 101; 102; 103; 104].
+Definition w_rands : list bytes := [[1; 2; 3; 4]; [5; 6; 7; 8]].
 Definition ex_ops : list op :=
   [Simple Open; Simple (GenericConnected w_echo); Simple (GenericUnconnected w_echo);
    WithBlock [GenericConnected w_echo; ConnectedCall [(7, w_echo)] 8] true; Simple Open; Simple Close].
@@ -187,9 +138,10 @@ Definition is_cmd (c : Z) (e : tev (S := basic_state)) : bool :=
   match e with TDeliver _ f _ => nth 0 f 0 =? c | _ => false end.
 
 Example C10_inhabited :
-  inputs_ok [] [] w_rands ex_ops /\ C10_guard no_faults = false
+  inputs_ok [] [] w_rands ex_ops
   /\ List.length (filter (is_cmd 112) (w_trace (fst (fst ex_run)))) = 3%nat
-  /\ existsb (fun e => match e with TDeliver _ f _ => effect_is (frame_effect f) false | _ => false end) (w_trace (fst (fst ex_run))) = true
+  /\ existsb (fun e => match e with TDeliver _ f _ => match frame_effect f with EFo false => true | _ => false end | _ => false end)
+             (w_trace (fst (fst ex_run))) = true
   /\ filter (fun o => match o with Some _ => true | None => false end)
             (map (fun e => match e with TDeliver _ f _ => fo_sizes f | _ => None end) (w_trace (fst (fst ex_run))))
      = [Some (false, 500, 500); Some (true, 4000, 4000)]
@@ -198,15 +150,15 @@ Example C10_inhabited :
   /\ cf_accept_session (t_cfg (w_t (fst (fst (drv_close basic_handler no_faults (fst ex_run)))))) = true.
 Proof.
   split; [split; [constructor |]; split; [constructor |]; split; repeat constructor |].
-  split; [reflexivity |]. split; [vm_compute; reflexivity |]. split; [vm_compute; reflexivity |].
+  split; [vm_compute; reflexivity |]. split; [vm_compute; reflexivity |].
   split; [vm_compute; reflexivity |].
   split; [vm_compute; reflexivity |]. split; [vm_compute; repeat split |]. vm_compute. reflexivity.
 Qed.
 
+Print Assumptions C10_holds.
+Print Assumptions C10_no_connected_before_fo.
+Print Assumptions C10_fo_order.
 Print Assumptions C10_library_exceptions_only.
 Print Assumptions C10_close_resets.
 Print Assumptions C10_reopen_works.
-Print Assumptions C10_full_refuted.
-Print Assumptions fo_order_refuted.
-Print Assumptions C10_guarded.
 Print Assumptions C10_inhabited.
